@@ -110,8 +110,14 @@ def make_generated(rng, wd, name, nlayers):
     return f
 
 def make_head1(rng, wd):
-    src = os.path.join(REPO, "data", "Head1")
+    src0 = os.path.join(REPO, "data", "Head1")
     d = os.path.join(wd, "head1"); os.makedirs(d, exist_ok=True)
+    # work on a copy: a broken tool that writes to an input position must not damage the repository's data
+    src = os.path.join(d, "data"); os.makedirs(src, exist_ok=True)
+    if os.path.isdir(src0):
+        for f in os.listdir(src0):
+            if os.path.isfile(os.path.join(src0, f)) and os.path.getsize(os.path.join(src0, f)) < 2000000:
+                shutil.copy(os.path.join(src0, f), os.path.join(src, f))
     f = dict(geom=os.path.join(src, "Head1.geom"), cond=os.path.join(src, "Head1.cond"), dip=os.path.join(src, "Head1.dip"),
              elec=os.path.join(src, "Head1.patches"), ecog=os.path.join(src, "Head1-ecog.electrodes"),
              squids=os.path.join(src, "Head1.squids"), eit=os.path.join(src, "Head1-EIT.patches"),
@@ -385,7 +391,7 @@ def gen_tools_cases(R, rng, quick, fsets):
     if "om_check_geom" in tools:
         for f2 in fsets:
             combos = [[], ["-m", f2["srcmesh"]], ["-d", f2["dip"]], ["-v"], ["-m", f2["srcmesh"], "-d", f2["dip"], "-v"]]
-            outside = os.path.join(REPO, "data", "Head1", "Head1_outside.dip")
+            outside = os.path.join(os.path.dirname(f2["geom"]), "Head1_outside.dip")
             if f2["name"] == "head1" and os.path.exists(outside): combos.append(["-d", outside])
             for extra in combos:
                 if quick and extra and rng.random() < 0.4: continue
